@@ -297,3 +297,41 @@ CLAIMS["C05"] = dict(
          "is then reported as `no-failing-input-found` by the verdict protocol (tried: 0 violations over 288 statistical cases). Detection self-test (quick tier, each a VIOLATION with replay): scale=rate, argmax, "
          "clock for zero-rate events, rates evaluated once before the loop, rates one step stale, dt from another clock, one clock skipped.",
     technique="Lean 4 / Mathlib measure theory (independence, product measures, exponential law) + first-minimum link to the executable step model + recorded-draw replay correspondence + exact-binomial end-to-end statistics")
+CLAIMS["C16"] = dict(
+    category="proof",
+    text="PARTIAL: that DIFFERENT seeds change the outputs is a statement about numpy's generator and is observed at run time only (see note); "
+         "reproducibility and the mean are proved. SERIAL runs only (parallel=False). Proved in Lean about an executable model (Pygom/Seed.lean) in which every stochastic entry point - "
+         "solve_stochast (n sequential _jump calls, each first redrawing the stochastic parameters if any, then the while-loop of C04 with "
+         "first-reaction / tau-leap / retry steps) and simulate_param / solve_determ with stochastic parameters (one redraw + integration before the loop, "
+         "n in the loop, Y = entrywise mean of the returned list) - is a function World -> Output x World of ONE generator state and the model's "
+         "parameter vector, for ANY generator, evaluators, integrator, n and path length: the n runs of a call and the calls of a history are chained "
+         "through that state and nothing else (run_many_threads_stream, solve_stochast_threads_stream, simulate_param_threads_stream); on a recorded "
+         "stream run k consumes the segment after run k-1's and depends on that segment only (stream_segments, segment_determines_run); what a previous "
+         "run leaves in the model object cannot change a later seeded run (history_irrelevant, _solve_stochast, _param); the exact request schedule - "
+         "per exact step one exponential per positive-rate event in event order with scale 1/rate, per tau step one Poisson per event with mean tau*rate "
+         "followed by the retry's exponentials exactly when the leap is rejected, none when all rates are zero, per redraw one request per distribution-valued "
+         "dict entry in dict order, n+1 passes for simulate_param (draw_schedule_step/_jump/draw_schedule/_param); the streamed loop is C04's run on the "
+         "served variates (jump_is_c04_run); a draw taken from a second source breaks determinacy by the primary stream on a concrete witness "
+         "(foreign_source_breaks_counterexample, foreign_retry_breaks_counterexample; no_foreign_requests_primary_only); Y[i][j] = (sum_k Y_all[k][i][j])/n "
+         "for every n > 0 (mean_is_mean; mean_over_n_plus_one_counterexample). 'Different seeds change the outputs' is not a theorem about all streams "
+         "(different_streams_same_output_counterexample); proved: streams whose first consumed waiting times differ give different paths "
+         "(different_first_wait_different_path, first_wait_is_min_of_draws). The model is tied to the code on every run: every call into numpy's global "
+         "generator, every rvs of the frozen distributions / sampler of the tuples handed to the model, every re-seed and every other source "
+         "(RandomState, default_rng, Generator, random module) is recorded during real runs; the recorded (kind, parameter, value) sequence must equal the "
+         "Lean model's schedule for the observed path (stream threaded through all iterations of all jumps; simulateParam run as is on reference "
+         "integrations), replaying the recorded calls on a fresh RandomState(seed) must reproduce every value bit for bit and end in the global generator's "
+         "final state. The property itself is decided on the real outputs by a Lean-independent oracle: same seed => bitwise identical states, times, counts, "
+         "Y, Y_all (fresh model, same model again, seed;A;B sequences, after a different earlier run + re-seed, full_output both ways, exact / adaptive tau / "
+         "fixed tau with rejected leaps, raw and gridded, n = 1..6, both random-parameter forms incl. dict arguments, partial and mixed dicts); different seeds "
+         "=> different outputs; Y == exact rational mean(Y_all) to 1e-12.",
+    note="Runtime, not proved: that two different numpy seeds give streams whose first consumed draws differ (checked only where the recorded run makes a "
+         "coincidence less likely than 1e-12: raw output, >= 20 events, a continuous waiting time in the output or prod Poisson pmf < 1e-12; random-parameter "
+         "runs whose integrations depend on the draws); numpy's generator being a deterministic function of its state; scipy's integrator being deterministic "
+         "(cases in which lsoda fails or overflows - finite-time blow-up of a generated model - return garbage that differs from call to call and are "
+         "skipped and counted). Parallel runs (dask, seed=True: a fresh unseeded RandomState per path by design) are outside the property. "
+         "exact()/cle()/hybrid() helper entry points and the cython back-end are not exercised. The replay of stochastic runs is per loop iteration from "
+         "the observed pre-state (C04), not of the whole loop at once (float rounding of times). Trusted: Lean kernel; the Recorder (wrappers of numpy.random, "
+         "scipy frozen rvs, samplers, generator constructors), C04's tracer, a deterministic step/rate cap on explosive paths, exact float->rational "
+         "conversion, driver JSON codec.",
+    technique="Lean 4 state-threading model (induction over n, fuel, request lists; prefix/segment lemmas; decide counterexamples) + recorded-draw schedule correspondence "
+              "+ shadow-generator accounting + bitwise reproducibility oracle")
